@@ -307,7 +307,7 @@ def run(ctx):
                     l = l.strip()
                     if l and not l.startswith("#"):
                         cases.append((l, "corpus"))
-        cases += gen_cases(ctx, rng, ctx.n(800, 30000), 9, 3)
+        cases += gen_cases(ctx, rng, ctx.n(800, 20000), 9, 3)
     return run_cases(ctx, cases, exes, drv, flavours)
 
 
